@@ -107,7 +107,19 @@ func (m *MonShadow) AfterBlock(s *Sim, req *BlockReq, res *BlockRes) {
 	r2 := m.N.RunBlock(req, nil)
 	if d := CompareBlocks(res, r2); d != "" {
 		m.dead = true
-		s.Report(Violation{Property: m.Prop, Rule: m.Rule, Site: siteClass(d), Height: req.Height, TxIndex: -1, Detail: d})
+		// where do the two states differ?
+		extra := ""
+		if s.Post != nil && r2.Panic == nil {
+			var e2 typesAppState
+			if pi := m.N.guard("Export", func() { e2 = m.N.App.CurrentState().Export() }); pi == nil {
+				if dd := DiffExports(&e2, s.Post, 4); len(dd) > 0 {
+					extra = fmt.Sprintf(" | export (undisturbed -> observed): %v", dd)
+				} else {
+					extra = " | exports are equal"
+				}
+			}
+		}
+		s.Report(Violation{Property: m.Prop, Rule: m.Rule, Site: siteClass(d), Height: req.Height, TxIndex: -1, Detail: d + extra})
 	}
 	m.Res.Count("shadow_blocks_compared", 1)
 }
